@@ -760,11 +760,16 @@ def run_C18(ctx):
     ctx.tlc_phase("virtual-simulate", "Virtual", vc, invariants=["LazyUntilNeeded", "KeepGeneratesOnce", "NoStale", "HeldOnlyIfKeep"],
                   simulate="num=%d" % (5000 if q else 200000), depth=12, **kw)
     ctx.virtual_trace_phase("virtual-sessions-code-to-spec", 3000 if q else 60000)
-    pc = dict(PartN=str(3 if q else 4), PartMax="3", MaxSteps=str(2 if q else 3), EmitOn="TRUE")
-    ctx.tlc_phase("partitions-all-splittings", "Partition", pc, invariants=["LocateInRange", "Tiling"], init="PInit", next_="PNext",
-                  view="PView", action_constraints=["PEmit"], translate=("virtual", "steps_partition"),
-                  judge_fn=("virtual", "judge_partition"), require_actions=["ChooseSplit", "At", "Range", "Repartition"],
-                  sample_cases=(150000 if q else None))
+    pc = dict(PartN=str(3 if q else 4), PartMax="3", MaxSteps=str(2 if q else 3), EmitOn="TRUE",
+              RangeSteps="{1, 2, 3, -1, -2}" if q else "{1, 2, -1}")
+    pkw = dict(invariants=["LocateInRange", "Tiling"], init="PInit", next_="PNext",
+               view="PView", action_constraints=["PEmit"], translate=("virtual", "steps_partition"),
+               judge_fn=("virtual", "judge_partition"), require_actions=["ChooseSplit", "At", "Range", "Repartition"])
+    ctx.tlc_phase("partitions-all-splittings", "Partition", pc, sample_cases=(150000 if q else None), **pkw)
+    if not q:
+        # longer arrays and larger strides: the phase (offset) a strided range carries from one partition into the next
+        pc = dict(PartN="6", PartMax="3", MaxSteps="2", EmitOn="TRUE", RangeSteps="{1, 3, 4, 5, -2, -3}")
+        ctx.tlc_phase("partitions-strided-ranges", "Partition", pc, **pkw)
     return ctx.finish(rule="case = one behaviour: (cache kind, generator behaviour, declarations) + an interleaving of operations and evictions on "
                            "a VirtualArray (alone or as the content of a list node), or one splitting + operations/repartitionings of an "
                            "IrregularlyPartitionedArray; every observation is compared with the eager / whole array and generator calls with the spec",
